@@ -146,8 +146,14 @@ var c07Catalogue = []c07Mutation{
 		i := entryIdx(c, "ops")
 		c.entries = append(c.entries[:i], c.entries[i+1:]...)
 	}, true},
-	{"rename-ops-entry", func(r *rng, cs []*rawCommit, _ []identity.Interface) { c := pickOne(r, cs); c.entries[entryIdx(c, "ops")].name = "opss" }, true},
-	{"ops-is-a-tree", func(r *rng, cs []*rawCommit, _ []identity.Interface) { c := pickOne(r, cs); c.entries[entryIdx(c, "ops")].isTree = true }, true},
+	{"rename-ops-entry", func(r *rng, cs []*rawCommit, _ []identity.Interface) {
+		c := pickOne(r, cs)
+		c.entries[entryIdx(c, "ops")].name = "opss"
+	}, true},
+	{"ops-is-a-tree", func(r *rng, cs []*rawCommit, _ []identity.Interface) {
+		c := pickOne(r, cs)
+		c.entries[entryIdx(c, "ops")].isTree = true
+	}, true},
 	{"extra-entry", func(r *rng, cs []*rawCommit, _ []identity.Interface) {
 		c := pickOne(r, cs)
 		c.entries = append(c.entries, rawEntry{name: "something-else", blob: []byte("x")})
@@ -157,12 +163,18 @@ var c07Catalogue = []c07Mutation{
 		i := entryIdx(c, "version-")
 		c.entries = append(c.entries[:i], c.entries[i+1:]...)
 	}, true},
-	{"version-not-a-number", func(r *rng, cs []*rawCommit, _ []identity.Interface) { c := pickOne(r, cs); c.entries[entryIdx(c, "version-")].name = "version-abc" }, true},
+	{"version-not-a-number", func(r *rng, cs []*rawCommit, _ []identity.Interface) {
+		c := pickOne(r, cs)
+		c.entries[entryIdx(c, "version-")].name = "version-abc"
+	}, true},
 	{"version-huge", func(r *rng, cs []*rawCommit, _ []identity.Interface) {
 		c := pickOne(r, cs)
 		c.entries[entryIdx(c, "version-")].name = "version-99999999999999999999999999"
 	}, true},
-	{"version-zero", func(r *rng, cs []*rawCommit, _ []identity.Interface) { c := pickOne(r, cs); c.entries[entryIdx(c, "version-")].name = "version-0" }, true},
+	{"version-zero", func(r *rng, cs []*rawCommit, _ []identity.Interface) {
+		c := pickOne(r, cs)
+		c.entries[entryIdx(c, "version-")].name = "version-0"
+	}, true},
 	{"version-other", func(r *rng, cs []*rawCommit, _ []identity.Interface) {
 		c := pickOne(r, cs)
 		c.entries[entryIdx(c, "version-")].name = fmt.Sprintf("version-%d", pickOne(r, []int{1, 2, 3, 5, 4096, 4097}))
@@ -244,6 +256,12 @@ var c07Catalogue = []c07Mutation{
 	}, true},
 	{"ops-empty-root", func(r *rng, cs []*rawCommit, _ []identity.Interface) {
 		mutateBlob(cs[0], func(m map[string]any) any { m["ops"] = []any{}; return m })
+	}, true},
+	{"ops-empty-everywhere", func(r *rng, cs []*rawCommit, _ []identity.Interface) {
+		// a well-formed history (version, clocks, known author) that carries no operation at all
+		for _, cm := range cs {
+			mutateBlob(cm, func(m map[string]any) any { m["ops"] = []any{}; return m })
+		}
 	}, true},
 	{"ops-null", func(r *rng, cs []*rawCommit, _ []identity.Interface) {
 		mutateBlob(cs[0], func(m map[string]any) any { m["ops"] = nil; return m })
@@ -358,6 +376,7 @@ func runC07(c *runCtx) {
 		}
 	}
 	c07Identities(c)
+	c09Foreign(c, "C07")
 }
 
 // c07Merge: local situation x hostile remote version -> MergeAll; local refs and reads unchanged.
@@ -448,6 +467,9 @@ func c07Merge(c *runCtx, r *rng, mut c07Mutation, authors0 []identity.Interface)
 		if mut.mustRefuse && !remoteReadable && status != entity.MergeStatusInvalid && !(situation == "local-ahead" && false) {
 			c.violation(c.nCases, "C07/not-reported-invalid", fmt.Sprintf("an unreadable remote bug (mutation %q, local %s) was reported %s", mut.name, situation, mergeStatusName(status)), nil)
 		}
+		if mut.name == "ops-empty-everywhere" && status != entity.MergeStatusInvalid {
+			c.violation(c.nCases, "C07/empty-history-accepted", fmt.Sprintf("a remote history without any operation (local %s) was reported %s", situation, mergeStatusName(status)), nil)
+		}
 		if situation == "ref-id-mismatch" {
 			if status != entity.MergeStatusInvalid {
 				c.violation(c.nCases, "C07/ref-id-mismatch-accepted", fmt.Sprintf("a remote ref whose name is not the id of its content was reported %s", mergeStatusName(status)), nil)
@@ -517,13 +539,27 @@ type idMutation struct {
 func c07Identities(c *runCtx) {
 	muts := []idMutation{
 		{name: "none"},
-		{name: "not-json", blob: func(r *rng, v []byte) []byte { return pickOne(r, [][]byte{[]byte("x"), {}, []byte("[]"), []byte("null"), {0xff, 0x00}}) }},
-		{name: "wrong-version", blob: func(r *rng, v []byte) []byte { return []byte(strings.Replace(string(v), `"version":2`, `"version":`+pickOne(r, []string{"1", "3", "0", "99999999999", "\"2\"", "null"}), 1)) }},
-		{name: "times-wrong-type", blob: func(r *rng, v []byte) []byte { return []byte(strings.Replace(string(v), `"times":{`, `"times":{"x":"y",`, 1)) }},
-		{name: "nonce-not-base64", blob: func(r *rng, v []byte) []byte { return []byte(strings.Replace(string(v), `"nonce":"`, `"nonce":"!!!`, 1)) }},
-		{name: "keys-garbage", blob: func(r *rng, v []byte) []byte { return []byte(strings.Replace(string(v), `"nonce":`, `"pub_keys":[`+pickOne(r, []string{`"garbage"`, `5`, `null`, `{"a":1}`, `"-----BEGIN PGP PUBLIC KEY BLOCK-----\n\nAAAA\n-----END PGP PUBLIC KEY BLOCK-----"`})+`],"nonce":`, 1)) }},
-		{name: "name-control-char", blob: func(r *rng, v []byte) []byte { return []byte(strings.Replace(string(v), `"name":"`, `"name":"\u0000`, 1)) }},
-		{name: "huge-field", blob: func(r *rng, v []byte) []byte { return []byte(strings.Replace(string(v), `"name":"`, `"name":"`+strings.Repeat("x", 200000), 1)) }},
+		{name: "not-json", blob: func(r *rng, v []byte) []byte {
+			return pickOne(r, [][]byte{[]byte("x"), {}, []byte("[]"), []byte("null"), {0xff, 0x00}})
+		}},
+		{name: "wrong-version", blob: func(r *rng, v []byte) []byte {
+			return []byte(strings.Replace(string(v), `"version":2`, `"version":`+pickOne(r, []string{"1", "3", "0", "99999999999", "\"2\"", "null"}), 1))
+		}},
+		{name: "times-wrong-type", blob: func(r *rng, v []byte) []byte {
+			return []byte(strings.Replace(string(v), `"times":{`, `"times":{"x":"y",`, 1))
+		}},
+		{name: "nonce-not-base64", blob: func(r *rng, v []byte) []byte {
+			return []byte(strings.Replace(string(v), `"nonce":"`, `"nonce":"!!!`, 1))
+		}},
+		{name: "keys-garbage", blob: func(r *rng, v []byte) []byte {
+			return []byte(strings.Replace(string(v), `"nonce":`, `"pub_keys":[`+pickOne(r, []string{`"garbage"`, `5`, `null`, `{"a":1}`, `"-----BEGIN PGP PUBLIC KEY BLOCK-----\n\nAAAA\n-----END PGP PUBLIC KEY BLOCK-----"`})+`],"nonce":`, 1))
+		}},
+		{name: "name-control-char", blob: func(r *rng, v []byte) []byte {
+			return []byte(strings.Replace(string(v), `"name":"`, `"name":"\u0000`, 1))
+		}},
+		{name: "huge-field", blob: func(r *rng, v []byte) []byte {
+			return []byte(strings.Replace(string(v), `"name":"`, `"name":"`+strings.Repeat("x", 200000), 1))
+		}},
 		{name: "entry-renamed", tree: func(r *rng, th repository.Hash, repo repository.RepoData, blob repository.Hash) repository.Hash {
 			h, _ := repo.StoreTree([]repository.TreeEntry{{ObjectType: repository.Blob, Hash: blob, Name: "versions"}})
 			return h
